@@ -352,6 +352,8 @@ def r_cumul(ctx):
     fails_closed(ctx, "R-CUMUL", runs)
     where = f"{cname}.__init__"
     n = 0
+    # the productivity / cost shares come from _distribute_p_over_n(x, size): as many as `size` (decided on its body)
+    decide_length_lemma(ctx, "R-CUMUL", "resource", "_distribute_p_over_n", 1)
     for r in runs:
         if r.rejected or dict(r.decisions).get("processscheduler.base.active_problem is None") is True:
             continue
@@ -360,7 +362,9 @@ def r_cumul(ctx):
         from sa.values import PyList
         items = cw.items if isinstance(cw, PyList) else []
         n += 1
-        ok = len(items) == 1 and len(items[0].loops) == 1 and norm(items[0].loops[0][3]) == norm(("range", K(0), S("self.size"))) \
+        from sa.decide import canon
+        how_many = length_of(norm(items[0].loops[0][3])) if len(items) == 1 and len(items[0].loops) == 1 else None
+        ok = how_many is not None and same_int(how_many, S("self.size")) \
             and not items[0].guards and isinstance(items[0].value, tuple) and items[0].value[0] == "obj" and items[0].value[1] == "Worker"
         if ok:
             ctx.ok("R-CUMUL", f"{where}: exactly `size` unit Worker objects", sample={"loop": show(items[0].loops[0][3])})
